@@ -122,6 +122,8 @@ class NamespaceFunction(Namespace[symtable.Function]):
 
     is_method: bool = False  # whether the function is a method
     zero_arg_super_used: bool = False  # whether the method uses a zero-argument super
+    # name of the first positional parameter, the implicit 2nd argument of super()
+    first_positional_parameter: str | None = None
 
     # list of bodies of converted return nodes
     return_node_bodies: list[list[expr]]
